@@ -3,7 +3,7 @@
   properties.  An observation is a text line
 
       <op> <mode|-|N> <flags_in> <arg>* => <result>* <flags_out>
-      <op> <mode|-|N> <flags_in> <arg>* => PANIC
+      <op> <mode|-|N> <flags_in> <arg>* => PANIC        (or HANG: the watchdog gave up waiting)
 
   (hex flags; typed tokens, see `parseVal`).
 -/
@@ -72,7 +72,7 @@ def parseObs (line : String) : Option Obs :=
     let (argT, resT) := (rest.takeWhile (· ≠ "=>"), (rest.dropWhile (· ≠ "=>")).drop 1)
     match mode?, parseHex? fi, parseAll argT with
     | some mode, some fin, some args =>
-      if resT == ["PANIC"] then some ⟨op, mode, fin, args, none⟩
+      if resT == ["PANIC"] || resT == ["HANG"] then some ⟨op, mode, fin, args, none⟩
       else match resT.getLast?, parseAll resT.dropLast with
         | some fo, some res =>
           (parseHex? fo).map fun fout => ⟨op, mode, fin, args, some (res, fout)⟩
@@ -103,7 +103,7 @@ def showVals (vs : List Val) : String := " ".intercalate (vs.map showVal)
 def judgeWith (e : Expect) (o : Obs) : Verdict :=
   match e, o.out with
   | .unknown, _ => .bad ("unknown op " ++ o.op)
-  | _, none => .viol "panic" "the call panicked"
+  | _, none => .viol "panic" "the call panicked or did not return"
   | .noPanic, some (_, fout) =>
     -- the properties are silent on the result; flags may still only accumulate (C14)
     if fout ||| o.flagsIn = fout then .ok "no-panic" else .viol "flags" "a status bit that was set on entry is clear on return"
